@@ -153,7 +153,9 @@ var prop = vh.Define("C02", "roundtrip", func(c Case, r *vh.R) {
 			r.Class("refused-digest-header-present")
 			return
 		}
-		e1, err := signedexchange.ReadExchange(gen.Source(buf.Bytes(), gen.SourceModeOf(buf.Bytes())))
+		src1 := gen.Source(buf.Bytes(), gen.SourceModeOf(buf.Bytes()))
+		e1, err := signedexchange.ReadExchange(src1)
+		gen.Recycle(src1)
 		if err != nil {
 			r.Failf("read-error", "the library signed and wrote an exchange whose integrity header was present before encoding (%s); ReadExchange: %v", c.PresetDigest, err)
 			return
@@ -279,7 +281,9 @@ var prop = vh.Define("C02", "roundtrip", func(c Case, r *vh.R) {
 	if c.ReadMode > 0 {
 		r.Class("plain-reader")
 	}
-	e2, err := signedexchange.ReadExchange(gen.Source(file, c.ReadMode))
+	src2 := gen.Source(file, c.ReadMode)
+	e2, err := signedexchange.ReadExchange(src2)
+	gen.Recycle(src2)
 	if err != nil {
 		r.Failf("read-error", "ReadExchange rejects the written file (url=%d sig=%d headers=%d): %v", ul, sl, hl, err)
 		return
